@@ -469,3 +469,98 @@ def routesCall {σ ι β ρ ε} (name otherName : Bytes) (f : Icpt σ) (inner : 
   else .fallback unimplementedResponse
 
 end Interceptor
+
+/-! ### appended by the C12 dimension audit: `ResponseFuture` as a value that is polled later,
+non-exact hints of the wrapped body -/
+namespace Interceptor
+open HMapLite HttpLite
+
+/-- `ResponseBody::size_hint` as `(lower, upper)` for arbitrary hints of the wrapped body -/
+def RespBody.sizeHintRange {ρ} (innerHint : ρ → Nat × Option Nat) : RespBody ρ → Nat × Option Nat
+  | .empty => (0, some 0)
+  | .wrap b => innerHint b
+
+/-- `ResponseFuture<F>`: `Kind::Future(F)` — the wrapped service's future, which the model knows by
+the number of polls it stays `Pending` and its eventual result — or `Kind::Status(Option<Status>)`. -/
+inductive RespFuture (ρ ε : Type)
+  | future (pendingPolls : Nat) (res : Except ε (Response ρ))
+  | status (st : Option GStatus)
+
+/-- what `Kind::Future` maps a ready result to: `map_ok(|res| res.map(ResponseBody::wrap))` -/
+def wrapResult {ρ ε} : Except ε (Response ρ) → Outcome ρ ε
+  | .ok res => .response { status := res.status, version := res.version, headers := res.headers,
+                           ext := res.ext, body := RespBody.wrap res.body }
+  | .error e => .error e
+
+/-- One `ResponseFuture::poll`; `none` = `Poll::Pending`.  `Pending` is only ever the wrapped
+future's (it is polled with the caller's `cx`, so the wake-up is the wrapped future's too); the
+status arm is ready at once and `take()`s the status — a second poll hits the `unwrap`. -/
+def RespFuture.pollWith (add : GStatus → Hdrs → Option Hdrs) {ρ ε} :
+    RespFuture ρ ε → RespFuture ρ ε × Option (Outcome ρ ε)
+  | .future (n + 1) res => (.future n res, none)
+  | .future 0 res => (.future 0 res, some (wrapResult res))
+  | .status (some st) => (.status none, some (rejectOutcomeWith add st))
+  | .status none => (.status none, some .panic)
+
+/-- poll until ready (at most `fuel` polls): the outcome and the number of `Pending`s seen -/
+def RespFuture.resolveWith (add : GStatus → Hdrs → Option Hdrs) {ρ ε} :
+    Nat → RespFuture ρ ε → Option (Outcome ρ ε × Nat)
+  | 0, _ => none
+  | fuel + 1, fut =>
+    match fut.pollWith add with
+    | (_, some o) => some (o, 0)
+    | (fut', none) => (RespFuture.resolveWith add fuel fut').map (fun r => (r.1, r.2 + 1))
+
+/-- the value a (not yet polled) future stands for -/
+def RespFuture.outcomeWith (add : GStatus → Hdrs → Option Hdrs) {ρ ε} : RespFuture ρ ε → Outcome ρ ε
+  | .future _ res => wrapResult res
+  | .status (some st) => rejectOutcomeWith add st
+  | .status none => .panic
+
+def RespFuture.pendingPolls {ρ ε} : RespFuture ρ ε → Nat
+  | .future n _ => n
+  | .status _ => 0
+
+/-- A wrapped service whose futures complete later: state, request ↦ new state, number of polls
+the returned future stays `Pending`, its result. -/
+abbrev InnerD (ι β ρ ε : Type) := ι → Request β → ι × Nat × Except ε (Response ρ)
+
+/-- the same service with futures that are ready at once -/
+def InnerD.now {ι β ρ ε} (inner : InnerD ι β ρ ε) : Inner ι β ρ ε :=
+  fun i r => ((inner i r).1, (inner i r).2.2)
+
+structure CallFut (σ ι β ρ ε : Type) where
+  icpt : σ
+  inner : ι
+  innerSaw : Option (Request β)
+  fut : RespFuture ρ ε
+
+/-- `InterceptedService::call` alone: everything that happens before the returned future is polled
+(the interceptor runs, the wrapped service is called or not); the future is returned as a value. -/
+def callFut {σ ι β ρ ε}
+    (f : Icpt σ) (inner : InnerD ι β ρ ε) (s : σ) (i : ι) (req : Request β) : CallFut σ ι β ρ ε :=
+  let uri := req.uri
+  let method := req.method
+  let version := req.version
+  let treq := fromHttp req
+  let (metadata, extensions, msg) := intoParts treq
+  match f s ((fromParts metadata extensions ()).metadata, (fromParts metadata extensions ()).extensions) with
+  | (s', .ok (md', ext')) =>
+    let (metadata, extensions, _) := intoParts (fromParts md' ext' ())
+    let treq := fromParts metadata extensions msg
+    let hreq := intoHttp treq uri method version .no
+    { icpt := s', inner := (inner i hreq).1, innerSaw := some hreq,
+      fut := .future (inner i hreq).2.1 (inner i hreq).2.2 }
+  | (s', .error status) =>
+    { icpt := s', inner := i, innerSaw := none, fut := .status (some status) }
+
+/-- All calls of a sequence are MADE first; the futures are kept (to be polled later, in any order). -/
+def runCallsFut {σ ι β ρ ε} (f : Icpt σ) (inner : InnerD ι β ρ ε) :
+    σ → ι → List (Request β) → σ × ι × List (Option (Request β) × RespFuture ρ ε)
+  | s, i, [] => (s, i, [])
+  | s, i, r :: rs =>
+    let c := callFut f inner s i r
+    let (s', i', rest) := runCallsFut f inner c.icpt c.inner rs
+    (s', i', (c.innerSaw, c.fut) :: rest)
+
+end Interceptor
